@@ -72,10 +72,10 @@ end
 value up to `norm` (nil slices of non-nullable fields come back empty) and consumes exactly the encoding.
 One theorem for all message types and versions; it holds for the decoder with and without the length
 bounds (`cfg`). -/
-theorem decode_encode (cfg : Cfg) (t : Ty) (v : Val) (hwf : t.wf = true) (hwt : wt t v = true)
+theorem decode_encode (cfg : Cfg) (hrec : cfg.recs = none) (t : Ty) (v : Val) (hwf : t.wf = true) (hwt : wt t v = true)
     (r : Bytes) (rem : Nat) (hrem : (encode t v).length ≤ rem) :
     decode cfg t ⟨encode t v ++ r, rem⟩ = .ok (norm t v) ⟨r, rem - (encode t v).length⟩ :=
-  rt_all cfg t hwf v hwt r rem hrem
+  rt_all cfg t hrec hwf v hwt r rem hrem
 
 /-- the 4-byte size prefix of a response frame is the number of bytes that follow -/
 theorem frame_size_response (flex : Bool) (corr : Int) (t : Ty) (v : Val)
@@ -122,7 +122,7 @@ theorem be_eq_encInt (k n : Nat) (h : n < 2 ^ (8 * k)) : be k n = encInt k (n : 
 
 /-- **A framed response decodes to what was encoded and exactly one frame is consumed**: `ReadResponse` on
 `frame ++ rest` returns the correlation id and the (normalised) value and leaves exactly `rest`. -/
-theorem frame_decode_consumes_one (cfg : Cfg) (flex : Bool) (corr : Int) (t : Ty) (v : Val) (rest : Bytes)
+theorem frame_decode_consumes_one (cfg : Cfg) (hrec : cfg.recs = none) (flex : Bool) (corr : Int) (t : Ty) (v : Val) (rest : Bytes)
     (hwf : t.wf = true) (hwt : wt t v = true) (hc : inRange 32 corr = true)
     (hsz : (frameResponse flex corr t v).length - 4 < 2 ^ 31) :
     readResponse cfg flex t (frameResponse flex corr t v ++ rest) = .ok (corr, norm t v) ⟨rest, 0⟩ := by
@@ -141,7 +141,7 @@ theorem frame_decode_consumes_one (cfg : Cfg) (flex : Bool) (corr : Int) (t : Ty
     simp only [Res.bind, h0, if_false, Int.toNat_natCast]
     rw [readInt_encInt 4 corr _ _ (by decide) hc' (by omega)]
     simp only []
-    rw [decode_encode cfg t v hwf hwt rest _ (by omega)]
+    rw [decode_encode cfg hrec t v hwf hwt rest _ (by omega)]
     simp [discardAll]
   · simp only [frameResponse, if_true, List.length_append, be_length, encInt_length, hu0] at hsz
     simp only [readResponse, frameResponse, if_true, List.append_assoc, List.length_append, encInt_length, hu0]
@@ -157,9 +157,80 @@ theorem frame_decode_consumes_one (cfg : Cfg) (flex : Bool) (corr : Int) (t : Ty
     have hl : lenOfU cfg 0 = 0 := lenOfU_small cfg 0 (by decide)
     simp only [tagCount, hl, hu0]
     simp only [Int.lt_irrefl, if_false, Int.toNat_zero, Nat.not_lt_zero, and_false, skipHeaderTags]
-    rw [decode_encode cfg t v hwf hwt rest _ (by omega)]
+    rw [decode_encode cfg hrec t v hwf hwt rest _ (by omega)]
     simp [discardAll]
 
+
+
+/-- `frameRequest` writes the client id as the model encoding of a (nullable iff flexible) string -/
+theorem clientID_enc (flex : Bool) (cid : Bytes) :
+    (if flex then encString false true cid ++ uvarint 0 else encString false false cid) =
+      encode (.string false flex) (.str cid) ++ (if flex then uvarint 0 else []) := by
+  cases flex <;> simp [encode]
+
+/-- **A framed request decodes to what was encoded and exactly one frame is consumed** (`ReadRequest` on
+`WriteRequest`'s output followed by anything): api key, version, correlation id, client id and the (normalised) body. -/
+theorem frame_request_decode (cfg : Cfg) (hrec : cfg.recs = none) (flex : Bool) (key ver corr : Int) (cid : Bytes)
+    (t : Ty) (v : Val) (rest : Bytes) (hwf : t.wf = true) (hwt : wt t v = true)
+    (hk : inRange 16 key = true) (hv : inRange 16 ver = true) (hc : inRange 32 corr = true) (hcid : cid.length < 2 ^ 15)
+    (hsz : (frameRequest flex key ver corr cid t v).length - 4 < 2 ^ 31) :
+    readRequest cfg flex t (frameRequest flex key ver corr cid t v ++ rest) = .ok (key, ver, corr, cid, norm t v) ⟨rest, 0⟩ := by
+  have hk' : inRange (8 * 2) key = true := hk
+  have hv' : inRange (8 * 2) ver = true := hv
+  have hc' : inRange (8 * 4) corr = true := hc
+  have hu0 : (uvarint 0).length = 1 := by simp [uvarint]
+  have hcw : wt (.string false flex) (.str cid) = true := by simp [wt]; omega
+  -- normalise the frame: header ints, client id as a model string, optional tag buffer, body
+  have hframe : frameRequest flex key ver corr cid t v =
+      be 4 ((encInt 2 key ++ encInt 2 ver ++ encInt 4 corr ++
+        (encode (.string false flex) (.str cid) ++ (if flex then uvarint 0 else [])) ++ encode t v).length) ++
+      (encInt 2 key ++ (encInt 2 ver ++ (encInt 4 corr ++
+        (encode (.string false flex) (.str cid) ++ ((if flex then uvarint 0 else []) ++ encode t v))))) := by
+    simp only [frameRequest, clientID_enc, List.append_assoc]
+  rw [hframe] at hsz ⊢
+  generalize hC : encode (.string false flex) (.str cid) = C at hsz ⊢
+  generalize hT : (if flex = true then uvarint 0 else []) = T at hsz ⊢
+  have hTl : T.length ≤ 1 := by rw [← hT]; split <;> simp [hu0]
+  simp only [List.length_append, be_length, encInt_length] at hsz
+  simp only [readRequest, List.append_assoc, List.length_append, encInt_length]
+  rw [be_eq_encInt 4 _ (by omega)]
+  have hin : inRange (8 * 4) ((2 + (2 + (4 + (C.length + (T.length + (encode t v).length)))) : Nat) : Int) = true := by
+    simp only [inRange, Bool.and_eq_true, decide_eq_true_eq]; constructor <;> omega
+  rw [readInt_encInt 4 _ 4 _ (by decide) hin (by omega)]
+  have h0 : ¬ (((2 + (2 + (4 + (C.length + (T.length + (encode t v).length)))) : Nat) : Int) < 0) := by omega
+  simp only [Res.bind, h0, if_false, Int.toNat_natCast]
+  rw [readInt_encInt 2 key _ _ (by decide) hk' (by omega)]
+  simp only []
+  rw [readInt_encInt 2 ver _ _ (by decide) hv' (by omega)]
+  simp only []
+  rw [readInt_encInt 4 corr _ _ (by decide) hc' (by omega)]
+  simp only []
+  rw [← hC, rt_string cfg false flex hrec (by rfl) (.str cid) hcw _ _ (by rw [hC]; omega)]
+  simp only [norm, hC]
+  -- the header tag buffer and the body
+  unfold readRequestBody
+  have htag : ∀ (d : Dec), d = ⟨T ++ (encode t v ++ rest), T.length + (encode t v).length⟩ →
+      ((if flex = true then
+          (readUvarint d).bind fun n d => (tagCount cfg n d).bind fun k d => skipHeaderTags cfg k d
+        else Res.ok () d) : Res Unit) = Res.ok () ⟨encode t v ++ rest, (encode t v).length⟩ := by
+    intro d hd
+    subst hd
+    cases flex
+    · simp only [Bool.false_eq_true, if_false] at hT ⊢
+      subst hT
+      simp
+    · simp only [if_true] at hT ⊢
+      subst hT
+      rw [readUvarint_uvarint 0 _ _ (by decide) (by omega)]
+      have hl : lenOfU cfg 0 = 0 := lenOfU_small cfg 0 (by decide)
+      simp only [Res.bind, tagCount, hl]
+      simp [skipHeaderTags, hu0]
+  have hn : 2 + (2 + (4 + (C.length + (T.length + (encode t v).length)))) - 2 - 2 - 4 - C.length =
+      T.length + (encode t v).length := by omega
+  rw [hn, htag _ rfl]
+  simp only [Res.bind]
+  rw [decode_encode cfg hrec t v hwf hwt rest _ (Nat.le_refl _)]
+  simp [discardAll]
 
 /-! ### unknown tagged fields are skipped -/
 
@@ -212,7 +283,7 @@ theorem taggedLoop_skips (cfg : Cfg) (lookup : Int → Option (Nat × (Dec → R
 /-- **skip_unknown_tags.**  A flexible struct whose tag buffer carries any number of tagged fields with ids the
 schema does not declare (as sent by a newer broker) decodes to exactly the value it decodes to without them,
 and consumes all of them. -/
-theorem skip_unknown_tags (cfg : Cfg) (fs : List Ty) (ids : List Int) (ts : List Ty) (vs tvs : List Val)
+theorem skip_unknown_tags (cfg : Cfg) (hrec : cfg.recs = none) (fs : List Ty) (ids : List Int) (ts : List Ty) (vs tvs : List Val)
     (es : List (Nat × Bytes)) (r : Bytes) (rem : Nat)
     (hwf : (Ty.struct true fs ids ts).wf = true) (hwt : wt (.struct true fs ids ts) (.struct vs tvs) = true)
     (hes : ∀ e ∈ es, e.1 < 2 ^ 64 ∧ e.2.length < 2 ^ 31 ∧ ∀ i ∈ ids, i ≠ toI64 e.1)
@@ -226,7 +297,7 @@ theorem skip_unknown_tags (cfg : Cfg) (fs : List Ty) (ids : List Int) (ts : List
   simp only [wt, Bool.and_eq_true] at hwt
   simp only [norm, normFields_markers ts tvs hmark hwt.2]
   simp only [decode, if_true]
-  rw [rt_fields cfg fs (rt_list cfg fs) hwfl hreg vs hwt.1 _ rem (by omega)]
+  rw [rt_fields cfg hrec fs (rt_list cfg fs) hwfl hreg vs hwt.1 _ rem (by omega)]
   simp only [Res.bind]
   rw [readUvarint_uvarint es.length _ _ (by omega) (by omega)]
   have hge := encExtras_length_ge es
@@ -301,7 +372,7 @@ def TaggedOk (cfg : Cfg) : List Int → List Ty → List Val → Prop
       TaggedOk cfg is ts vs
   | _, _, _ => False
 
-theorem taggedLoop_known (cfg : Cfg) (ids : List Int) (ts : List Ty) :
+theorem taggedLoop_known (cfg : Cfg) (hrec : cfg.recs = none) (ids : List Int) (ts : List Ty) :
     ∀ (sufI : List Int) (sufT : List Ty) (sufV : List Val) (preI : List Int) (preT : List Ty) (preV : List Val),
       ids = preI ++ sufI → ts = preT ++ sufT → preI.length = preT.length → wtFields preT preV = true →
       ids.Nodup → TaggedOk cfg sufI sufT sufV →
@@ -331,11 +402,11 @@ theorem taggedLoop_known (cfg : Cfg) (ids : List Int) (ts : List Ty) :
     simp only [Res.bind]
     rw [readUvarint_uvarint (encode t v).length _ _ (by omega) (by omega)]
     simp only [toI64_toU64 i h0 h1, hlook, Nat.zero_add]
-    rw [hrt hwf v hwt _ _ (by omega)]
+    rw [hrt hrec hwf v hwt _ _ (by omega)]
     simp only []
     have hlen' : (normFields preT preV).length = preI.length := by rw [normFields_length preT preV hpre, hl]
     rw [← hlen', set_append_mid]
-    have ih := taggedLoop_known cfg (preI ++ i :: sufI) (preT ++ t :: sufT) sufI sufT sufV (preI ++ [i]) (preT ++ [t]) (preV ++ [v])
+    have ih := taggedLoop_known cfg hrec (preI ++ i :: sufI) (preT ++ t :: sufT) sufI sufT sufV (preI ++ [i]) (preT ++ [t]) (preV ++ [v])
       (by simp) (by simp) (by simp [hl]) (wtFields_snoc preT preV t v hpre hwt) hnd hrest r
     rw [normFields_snoc preT preV t v hpre] at ih
     simp only [List.append_assoc, List.singleton_append] at ih
@@ -366,7 +437,7 @@ theorem countTagged_le_enc (cfg : Cfg) : ∀ (ids : List Int) (ts : List Ty) (tv
 /-- **Round trip of a flexible struct with id-tagged fields** (`kafka:"…,tag=N"`; the pinned tree declares none,
 the codec supports them): regular fields as in `decode_encode`, every tagged field written as (id, size, payload)
 in declaration order and read back through the tag map, whatever the order of distinct ids. -/
-theorem decode_encode_tagged (cfg : Cfg) (fs : List Ty) (ids : List Int) (ts : List Ty) (vs tvs : List Val)
+theorem decode_encode_tagged (cfg : Cfg) (hrec : cfg.recs = none) (fs : List Ty) (ids : List Int) (ts : List Ty) (vs tvs : List Val)
     (r : Bytes) (rem : Nat)
     (hwfl : wfList fs = true) (hreg : fs.all regularOk = true) (hfs : wtFields fs vs = true)
     (hnd : ids.Nodup) (hok : TaggedOk cfg ids ts tvs) (hn : (encodeTagged ids ts tvs).length < 2 ^ 31)
@@ -377,7 +448,7 @@ theorem decode_encode_tagged (cfg : Cfg) (fs : List Ty) (ids : List Int) (ts : L
   have hc := countTagged_le_enc cfg ids ts tvs hok
   simp only [encode, if_true, List.length_append] at hrem ⊢
   simp only [decode, if_true, List.append_assoc]
-  rw [rt_fields cfg fs (rt_list cfg fs) hwfl hreg vs hfs _ rem (by omega)]
+  rw [rt_fields cfg hrec fs (rt_list cfg fs) hwfl hreg vs hfs _ rem (by omega)]
   simp only [Res.bind]
   rw [readUvarint_uvarint (countTagged ts) _ _ (by omega) (by omega)]
   have hl : lenOfU cfg (countTagged ts) = countTagged ts := lenOfU_small cfg _ (by omega)
@@ -385,7 +456,7 @@ theorem decode_encode_tagged (cfg : Cfg) (fs : List Ty) (ids : List Int) (ts : L
   have h1 : ¬ (cfg.bounded = true ∧ countTagged ts > rem - (encodeFields fs vs).length - (uvarint (countTagged ts)).length) := by
     intro h; omega
   simp only [tagCount, hl, h0, if_false, Int.toNat_natCast, h1]
-  have hloop := taggedLoop_known cfg ids ts ids ts tvs [] [] [] rfl rfl rfl (by simp [wtFields]) hnd hok r
+  have hloop := taggedLoop_known cfg hrec ids ts ids ts tvs [] [] [] rfl rfl rfl (by simp [wtFields]) hnd hok r
   simp only [normFields, List.nil_append] at hloop
   rw [hloop _ (by omega)]
   simp only []
@@ -393,7 +464,7 @@ theorem decode_encode_tagged (cfg : Cfg) (fs : List Ty) (ids : List Int) (ts : L
   omega
 
 /-- the hypotheses are satisfiable: two tagged fields declared in non-ascending id order -/
-example : TaggedOk ⟨true⟩ [5, 0] [.string true false, .int32] [.str [104, 105], .int (-2)] := by
+example : TaggedOk { bounded := true } [5, 0] [.string true false, .int32] [.str [104, 105], .int (-2)] := by
   have h3 := uvarint_length_le10 (0 + 1 + 1 + 1) (by decide)
   refine ⟨⟨by decide, by decide, rfl, rfl, by simp [wt], ?_, rt_all _ _⟩, ⟨by decide, by decide, rfl, rfl, by simp [wt, inRange], ?_, rt_all _ _⟩, trivial⟩
   · simp only [encode, encString, Bool.false_eq_true, Bool.false_and, if_false, if_true, List.length_append, List.length_cons, List.length_nil]
